@@ -275,7 +275,9 @@ class _CanonicalBranches(ast.NodeTransformer):
                 fills = []
                 ok = True
                 for b_ in body:
-                    if isinstance(b_, ast.Assign) and len(b_.targets) == 1 and isinstance(b_.targets[0], ast.Name) and not fills:
+                    sum_fill = self._fill_of(b_)
+                    if isinstance(b_, ast.Assign) and len(b_.targets) == 1 and isinstance(b_.targets[0], ast.Name) and not fills \
+                            and not (sum_fill and sum_fill[0] == "sum"):
                         if b_.targets[0].id in temps:
                             ok = False
                             break
@@ -303,6 +305,7 @@ class _CanonicalBranches(ast.NodeTransformer):
                 if any(self._mentions(x, n_) for x in exprs for n_ in names):
                     continue
                 inits = {}
+                starts = {}
                 for kind, name, parts in fills:
                     for i in range(j - 1, -1, -1):
                         if self._mentions(out[i], name):
@@ -316,6 +319,10 @@ class _CanonicalBranches(ast.NodeTransformer):
                                     (isinstance(v0, ast.Call) and isinstance(v0.func, ast.Name) and v0.func.id == "list" and not v0.args and not v0.keywords)
                                 if (kind == "dict" and empty_dict) or (kind == "list" and empty_list):
                                     inits[name] = i
+                                if kind == "sum" and isinstance(v0, ast.Constant) and isinstance(v0.value, (int, float)) \
+                                        and not isinstance(v0.value, bool):
+                                    inits[name] = i
+                                    starts[name] = v0
                             break
                 if len(inits) != len(fills):
                     continue
@@ -331,8 +338,14 @@ class _CanonicalBranches(ast.NodeTransformer):
                             n.ctx = ast.Store()
                     gen = [ast.comprehension(target=tgt, iter=copy.deepcopy(lp.iter),
                                              ifs=[copy.deepcopy(c_) for c_ in conds], is_async=0)]
-                    comp = ast.DictComp(key=parts[0], value=parts[1], generators=gen) if kind == "dict" else \
-                        ast.ListComp(elt=parts[0], generators=gen)
+                    if kind == "sum":
+                        comp = ast.Call(func=ast.Name(id="sum", ctx=ast.Load()),
+                                        args=[ast.GeneratorExp(elt=parts[0], generators=gen)] +
+                                        ([] if starts[name].value == 0 and isinstance(starts[name].value, int) else [starts[name]]),
+                                        keywords=[])
+                    else:
+                        comp = ast.DictComp(key=parts[0], value=parts[1], generators=gen) if kind == "dict" else \
+                            ast.ListComp(elt=parts[0], generators=gen)
                     new = ast.Assign(targets=[ast.Name(id=name, ctx=ast.Store())], value=comp)
                     ast.copy_location(new, lp)
                     ast.copy_location(comp, lp)
@@ -355,6 +368,10 @@ class _CanonicalBranches(ast.NodeTransformer):
                 and b_.value.func.attr == "append" and isinstance(b_.value.func.value, ast.Name) \
                 and len(b_.value.args) == 1 and not b_.value.keywords:
             return "list", b_.value.func.value.id, [b_.value.args[0]]
+        if isinstance(b_, ast.Assign) and len(b_.targets) == 1 and isinstance(b_.targets[0], ast.Name) and \
+                isinstance(b_.value, ast.BinOp) and isinstance(b_.value.op, ast.Add) and isinstance(b_.value.left, ast.Name) \
+                and b_.value.left.id == b_.targets[0].id:
+            return "sum", b_.targets[0].id, [b_.value.right]          # X = X + E: what sum() does
         if isinstance(b_, ast.If) and len(b_.body) == 1 and len(b_.orelse) == 1:
             a, b = self._fill_of(b_.body[0]), self._fill_of(b_.orelse[0])
             if a and b and a[:2] == b[:2]:
@@ -417,6 +434,14 @@ class _CanonicalBranches(ast.NodeTransformer):
         while i < len(stmts):
             st = stmts[i]
             rest = stmts[i + 1:]
+            if isinstance(st, ast.Try) and st.orelse and not st.finalbody and st.handlers and \
+                    all(_block_terminates(h.body) for h in st.handlers):
+                # every handler leaves: the else arm is simply what follows the try statement
+                tail = st.orelse
+                st.orelse = []
+                out.append(st)
+                out.extend(self._flatten(tail + rest, fn_level))
+                return out
             if isinstance(st, ast.If):
                 body, orelse = st.body, st.orelse
                 tb = _block_terminates(body)
@@ -765,8 +790,15 @@ class Repo:
                     target, recv = self._resolve_procedure(fi, st.value)
                     if target is not None and not self._single_return_value(target):
                         rep = self._procedure_body(target, st.value, recv, counter, assign_to=st.targets)
+                if rep is None and isinstance(st, (ast.Assign, ast.AugAssign, ast.AnnAssign, ast.Return, ast.Expr)) and \
+                        getattr(st, "value", None) is not None:
+                    # a call to such a helper inside a larger expression: its value is computed into a temporary in front
+                    # of the statement (the helper's body spliced in), the statement then uses the temporary
+                    rep = self._hoist_helper_calls(fi, st, counter)
+                    target = None
                 if rep is not None:
-                    self.inlined.append((fi.qual, target.qual))
+                    if target is not None:
+                        self.inlined.append((fi.qual, target.qual))
                     out.extend(rep)
                     changed = True
                 else:
@@ -779,13 +811,50 @@ class Repo:
                 changed = True
         return changed
 
+    def _hoist_helper_calls(self, fi, st, counter):
+        found = []
+
+        def scan(n, top):
+            if isinstance(n, (ast.Lambda, ast.ListComp, ast.SetComp, ast.DictComp, ast.GeneratorExp, ast.IfExp, ast.BoolOp)):
+                return          # evaluated conditionally / repeatedly: not hoisted
+            if isinstance(n, ast.Call) and not top:
+                target, recv = self._resolve_procedure(fi, n)
+                if target is not None and not self._single_return_value(target):
+                    found.append((n, target, recv))
+                    return
+            for ch in ast.iter_child_nodes(n):
+                scan(ch, False)
+        scan(st.value, True)
+        if not found:
+            return None
+        pre = []
+        for call, target, recv in found:
+            counter[0] += 1
+            tmp = f"_inlret{counter[0]}"
+            name = ast.Name(id=tmp, ctx=ast.Store())
+            body = self._procedure_body(target, call, recv, counter, assign_to=[name])
+            if body is None:
+                return None
+            pre.extend(body)
+            self.inlined.append((fi.qual, target.qual))
+
+            class _Rep(ast.NodeTransformer):
+                def visit_Call(self, n, _call=call, _tmp=tmp):
+                    if n is _call:
+                        return ast.copy_location(ast.Name(id=_tmp, ctx=ast.Load()), n)
+                    return self.generic_visit(n)
+            st.value = _Rep().visit(st.value)
+        ast.fix_missing_locations(st)
+        return pre + [st]
+
     @staticmethod
     def _single_return_value(target):
         """the helper is `<assignments>; return E` with no other exit: its value is inlined at term level instead"""
         body = _strip_doc(target.node.body)
         rets = [n for n in ast.walk(ast.Module(body=body, type_ignores=[])) if isinstance(n, ast.Return)]
         raises = [n for n in ast.walk(ast.Module(body=body, type_ignores=[])) if isinstance(n, (ast.Raise, ast.Try))]
-        return len(rets) == 1 and body and body[-1] is rets[0] and not raises
+        plain = all(isinstance(x, ast.Assign) and all(isinstance(t, (ast.Name, ast.Tuple)) for t in x.targets) for x in body[:-1])
+        return len(rets) == 1 and body and body[-1] is rets[0] and not raises and plain
 
     def _tail_returns_to_assign(self, stmts, targets):
         """every path through stmts ends in `return E` (-> `targets = E`) or `raise`; None otherwise"""
